@@ -21,6 +21,7 @@ type FuncResult struct {
 	Assumes  []*Term
 	PreSat   *Obligation // vacuity: requires satisfiable
 	Canary   *Obligation // vacuity: planted false assertion at exit must fail
+	PathGuards []*Obligation // vacuity: the path to each contract obligation (post, call assertion, loop clause) is feasible
 	Err      string
 	Loops    int
 	Instrs   int
@@ -117,6 +118,21 @@ func VerifyFuncMode(prog *Prog, fc *FuncContract, concretize int) (res *FuncResu
 	res.Assumes = vc.assumes
 	res.PreSat = vc.preSat
 	res.Canary = vc.canary
+	// reachability covers: an obligation whose path condition contradicts the assumptions made so far would hold
+	// trivially (a wrong library model or a contradictory assumed clause shows up here)
+	seenPC := map[*Term]bool{}
+	for _, o := range vc.obls {
+		switch o.Kind {
+		case "post", "call-assert", "call-pre", "loop-keep", "loop-init":
+		default:
+			continue
+		}
+		if o.PC == nil || seenPC[o.PC] || (o.PC.IsConst && o.PC.B) {
+			continue
+		}
+		seenPC[o.PC] = true
+		res.PathGuards = append(res.PathGuards, &Obligation{Name: o.Name + "#reachable", Kind: "vacuity-sat", PC: o.PC, Goal: False(), NAssume: o.NAssume, Fn: o.Fn, Tags: o.Tags})
+	}
 	for _, b := range fn.Blocks {
 		res.Instrs += len(b.Instrs)
 	}
